@@ -24,6 +24,11 @@ Line protocol for C11 (molar / mass / volumetric views and units of measure).
   setflow <s> <unit> <ph|-> <i> <x> <V>      → w <-|v<id>>
   gettotal <s> <unit> <V>                    → x - <float>
   settotal <s> <unit> <x> <V>                → ok
+  getdata <s> <dim> <unit> <ph|-> <i> <V>    → x <-|v<id>> <float>      (imol/imass/ivol .get_data(units, key))
+  setdata <s> <dim> <unit> <ph|-> <i> <x> <V> → w <-|v<id>>
+  getprop <s> <dim> <unit> <V>               → x - <float>              (get_property('F_<dim>', units))
+  setprop <s> <dim> <unit> <x> <V>           → ok
+  unitfor <dim> <unit>                       → x - <factor>             (units= of an indexer constructor)
   any of them                                → err <Name>
 
 Numbers in: exact rationals `n/d`.  Matrices: rows separated by `|`, entries by `,`; `_` = no rows.
@@ -103,6 +108,13 @@ def parseOp? (t : List String) : Option Op :=
     pure (.setFlow (← s.toNat?) u (← parsePh? ph) (← i.toNat?) (← parseRat? x) (← parseMat? v))
   | ["gettotal", s, u, v] => do pure (.getTotal (← s.toNat?) u (← parseMat? v))
   | ["settotal", s, u, x, v] => do pure (.setTotal (← s.toNat?) u (← parseRat? x) (← parseMat? v))
+  | ["getdata", s, d, u, ph, i, v] => do
+    pure (.getData (← s.toNat?) (← parseDim? d) u (← parsePh? ph) (← i.toNat?) (← parseMat? v))
+  | ["setdata", s, d, u, ph, i, x, v] => do
+    pure (.setData (← s.toNat?) (← parseDim? d) u (← parsePh? ph) (← i.toNat?) (← parseRat? x) (← parseMat? v))
+  | ["getprop", s, d, u, v] => do pure (.getProp (← s.toNat?) (← parseDim? d) u (← parseMat? v))
+  | ["setprop", s, d, u, x, v] => do pure (.setProp (← s.toNat?) (← parseDim? d) u (← parseRat? x) (← parseMat? v))
+  | ["unitfor", d, u] => do pure (.unitFor (← parseDim? d) u)
   | _ => none
 
 def showOut : Out → String
